@@ -3,6 +3,7 @@ package main
 import (
 	"fmt"
 	"go/token"
+	"go/types"
 
 	"golang.org/x/tools/go/ssa"
 )
@@ -92,7 +93,26 @@ func runC06Dims(c *Ctx) {
 		}
 		return "?"
 	}
+	// entries of the length set are only ever stored as true (so set[k] reads "some position has length k")
+	onlyTrue := true
+	for _, g := range c.P.Funcs {
+		if pkgOf(g) != "geom" {
+			continue
+		}
+		eachInstr(g, func(in ssa.Instruction) {
+			if mu, ok := in.(*ssa.MapUpdate); ok && types.Identical(mu.Map.Type(), types.NewMap(types.Typ[types.Int], types.Typ[types.Bool])) {
+				if k, ok := mu.Value.(*ssa.Const); !ok || k.Value == nil || k.Value.String() != "true" {
+					onlyTrue = false
+				}
+			}
+		})
+	}
 	flagKind := func(v ssa.Value) string {
+		if lk, ok := v.(*ssa.Lookup); ok && !lk.CommaOk && onlyTrue {
+			if k, isC := constInt(lk.Index); isC && k == 2 {
+				return "==2"
+			}
+		}
 		var origins [][]Guard
 		trueOrigins(v, map[ssa.Value]bool{}, &origins)
 		kinds := map[string]bool{}
